@@ -10,7 +10,14 @@ def session_of(obs, lineno):
     start = i
     while start > 0 and not obs[start].startswith("S"):
         start -= 1
-    return [l.split(" => ")[0] for l in obs[start:i + 1]]
+    out, skip = [], 0
+    for l in obs[start:i + 1]:
+        if skip and l.startswith("C "):
+            skip -= 1          # the C lines a P step was expanded into by the harness
+            continue
+        out.append(l.split(" => ")[0])
+        skip = len(l.split()) - 1 if l.startswith("P ") else 0
+    return out
 
 
 def judge(binary, lines, timeout=600):
@@ -30,7 +37,7 @@ def readable(lines):
     return out
 
 
-def run_serve_suite(R, ctx, name, nsess, what, **genargs):
+def run_serve_suite(R, ctx, name, nsess, what, parallel=0, **genargs):
     R.rule = ("sessions: 1-4 connections (net.Pipe) against one server.Manager.Handle; each step writes a pipeline of 1-5 commands (string/key "
               "commands, SELECT with valid and invalid arguments, SUBSCRIBE, PUBLISH with binary payloads, values that are not commands, "
               "protocol damage) followed by a sentinel PING, and collects every byte the server wrote; drains collect Pub/Sub pushes; some "
@@ -47,6 +54,8 @@ def run_serve_suite(R, ctx, name, nsess, what, **genargs):
     lines = list(core.corpus("serve_" + name))
     for _ in range(n):
         lines += servegen.session(rng, **genargs)
+    for _ in range(parallel if R.tier == "quick" else parallel * 8):
+        lines += servegen.parallel_session(rng)
     obs, d, crashes, se = judge(binary, lines)
     kinds = collections.Counter(l.split()[0] for l in obs)
     statuses = collections.Counter(l.split()[-1] for l in obs if l.startswith("C ") and " => " in l)
